@@ -1054,3 +1054,31 @@ package netty
 //   Accept fails after the acceptor is closed (ASSUMED of acceptors; tcp: tcpAcceptor.Close#closes_listener_once + Accept#closed_acceptor_reports_the_error)
 //   the context was cancelled before the acceptor was closed => Sync#server_closed_after_shutdown
 //@ lemma accept_loop_ends_server_closed(tCancel int, tAcceptorClose int, tAcceptFail int, ctxDoneAtFail bool, serverClosed bool) implies(tCancel < tAcceptorClose && tAcceptorClose <= tAcceptFail && implies(tCancel < tAcceptFail, ctxDoneAtFail) && implies(ctxDoneAtFail, serverClosed), serverClosed)
+
+// ---------------------------------------------------------------------------
+// C20: idle handlers. The clock is a ghost: time.Now / time.Since are events whose results are
+// arbitrary; the posts relate the decision to fire to the value time.Since returned for the last
+// read (write) time read under the lock.
+//@ property C20
+//@ assume func =time.Now
+//@   event
+//@ assume func =time.Since
+//@   event
+//@ assume func =time.AfterFunc
+//@   event
+//@   ensures_assumed result != nil
+//@ assume func =(*time.Timer).Reset
+//@   event
+//@ assume func =(*time.Timer).Stop
+//@   event
+//@ func (*readIdleHandler).withLock
+//@   inline
+//@ func (*readIdleHandler).withReadLock
+//@   inline
+//@ func (*readIdleHandler).HandleInactive
+//@   requires r != nil && ctx != nil
+//@   may_panic true
+//@   modifies all
+//@   ensures timer_released_under_lock: evis(0, "lock r.mutex") && count("lock r.mutex") == 1 && at(first("unlock r.mutex"), r.handlerCtx == nil && r.readTimer == nil) && count("Timer).Stop") <= 1 && count("Timer).Reset") == 0 && count("time.AfterFunc") == 0
+//@   ensures existing_timer_stopped: at(first("lock r.mutex") + 1, implies(r.readTimer != nil, count("Timer).Stop") == 1 && evarg(first("Timer).Stop"), 0) == r.readTimer))
+//@   ensures then_forwards: implies(!panicked(), evis(nemitted()-1, "InactiveContext.HandleInactive") && evrecv(nemitted()-1) == ctx && evarg(nemitted()-1, 0) == ex && first("unlock r.mutex") < nemitted()-1)
